@@ -668,4 +668,71 @@ theorem findDeclaredRx_eq (markup : List Nat) (isHtml : Bool) :
   simp only [Bool.false_eq_true, if_false, search_xml, search_html]
   rfl
 
+/-! ## both flavours: nothing is declared in a text without `<` -/
+
+theorem ci_lt_bytes (x : Nat) : bytesFlavor.ci 60 x = (x == 60) := by
+  have := test_lit_nonletter 60 x (by omega)
+  simpa [Cls.test] using this
+
+theorem ci_lt_str (x : Nat) : strFlavor.ci 60 x = (x == 60) := by
+  have : Gen.c07CiTable.lookup 60 = none := by decide +kernel
+  simp [strFlavor, this]
+
+theorem starG_none_of_k_none (p : Nat → Bool) (k : K) (inp : List Nat)
+    (hk : ∀ t st, (∀ x ∈ t, x ∈ inp) → k t st = none) (st : St) : starG p k inp st = none := by
+  induction inp generalizing st with
+  | nil => exact hk [] st (fun _ h => h)
+  | cons x t ih =>
+    simp only [starG]
+    have h1 : ∀ st', starG p k t st' = none := fun st' =>
+      ih (fun t' st'' ht' => hk t' st'' (fun y hy => List.mem_cons_of_mem _ (ht' y hy))) st'
+    have h2 : k (x :: t) st = none := hk (x :: t) st (fun _ h => h)
+    split
+    · rw [h1, h2]
+    · exact h2
+
+/-- any flavour in which only `<` itself matches the literal `<` -/
+theorem findDeclaredRx_none_of_no_lt (isStr : Bool) (markup : List Nat) (isHtml entire : Bool)
+    (h : ∀ x ∈ markup, x ≠ 60) : findDeclaredRx isStr markup isHtml entire = none := by
+  have hci : ∀ x, (if isStr then strFlavor else bytesFlavor).ci 60 x = (x == 60) := by
+    intro x; cases isStr
+    · exact ci_lt_bytes x
+    · exact ci_lt_str x
+  unfold findDeclaredRx
+  dsimp only
+  generalize (if isStr then strFlavor else bytesFlavor) = F at hci ⊢
+  have hone : ∀ (k : K) (t : List Nat) (st : St), (∀ x ∈ t, x ≠ 60) → one (Cls.test F (.lit 60)) k t st = none := by
+    intro k t st ht
+    cases t with
+    | nil => rfl
+    | cons x r =>
+      have : (x == 60) = false := by simpa using ht x List.mem_cons_self
+      simp [one, Cls.test, hci, this]
+  have hxml : ∀ n, search F xmlPattern markup n = none := by
+    intro n
+    unfold search xmlPattern
+    simp only [gen_xml_eq.1, gen_xml_eq.2, if_true]
+    unfold matchHere xmlAtomsH
+    simp only [mSeq, mAtom, lits, List.map_cons, List.cons_append]
+    apply starG_none_of_k_none
+    intro t st ht
+    exact hone _ t st (fun x hx => h x (List.mem_of_mem_take (ht x hx)))
+  have hhtml : ∀ n, search F htmlPattern markup n = none := by
+    intro n
+    unfold search htmlPattern
+    simp only [gen_html_eq.1, gen_html_eq.2, Bool.false_eq_true, if_false]
+    have hw : ∀ x ∈ markup.take n, x ≠ 60 := fun x hx => h x (List.mem_of_mem_take hx)
+    generalize markup.take n = w at hw
+    induction w with
+    | nil => simp only [searchFrom, matchHere, htmlAtomsH, mSeq, mAtom]; exact hone _ [] _ (fun _ h => nomatch h)
+    | cons x t ih =>
+      simp only [searchFrom]
+      have : matchHere F htmlAtomsH (x :: t) = none := by
+        simp only [matchHere, htmlAtomsH, mSeq, mAtom]
+        exact hone _ (x :: t) _ hw
+      rw [this]
+      exact ih (fun y hy => hw y (List.mem_cons_of_mem _ hy))
+  simp only [hxml, hhtml]
+  cases isHtml <;> rfl
+
 end BS.EncodingIn.Rx
